@@ -12,10 +12,12 @@ documents are deleted than the meta records.
   -- mirrors: src/indexer/segment_entry.rs (the meta of the registered entry; `merge` advances
   --          clones: what it records about the sources is not kept; the merged entry is new)
 
-`Props/C02.lean`: `C02_bookkeeping_refines` (as long as the stamper never goes back - no
-`delete_all_documents`, no `rollback` - every run of this machine IS the run of the core machine),
-`C02_bookkeeping_counterexample` (after `delete_all_documents` it is not: finding
-`C02:reused-opstamp-advance-deletes-early-return`).
+`Props/C02.lean`: `C02_bookkeeping_refines` (as long as the stamper never goes below `meta.opstamp`
+- `delete_all_documents` only on a writer that has not committed since it was created; rollbacks
+and reopen allowed - every run of this machine IS the run of the core machine),
+`C02_bookkeeping_counterexample` (after a `delete_all_documents` that reverts the stamper it is
+not: finding `C02:reused-opstamp-advance-deletes-early-return`).  The driver replays the events of
+every `C02 impl` run on this machine too (`pubD`), and the harness compares it with the real index.
 -/
 namespace TantivyModel.Writer
 
